@@ -123,6 +123,11 @@ Definition raw_of_extra (fs : list subfield) : res bytes :=
   | Panic => Panic
   end.
 
+(* the outcome of the conversion as a function of the serialised length of the sub-fields alone (theorem
+   C16_from_outcome): used to probe the allocation-cap boundary without materialising 32 MiB in the model *)
+Definition raw_of_extra_outcome (total : N) : res N := if over_cap 1 total then Panic else Ok total.
+Definition nonce_field_len (n : N) : N := 1 + lenN (enc_varint n) + n.
+
 (* ---- accessors: find_map, i.e. the first match -------------------------------------------------------- *)
 Fixpoint tx_pubkey (fs : list subfield) : option bytes :=
   match fs with
